@@ -431,6 +431,170 @@ pub fn mutate(c: &MutCase) -> Vec<u8> {
     b
 }
 
+/// "yields an equal frame" rests on the public `PartialEq` of `Frame`. This section checks that relation itself against the
+/// reference encoding: two constructible frames are `==` exactly when PROTOCOL.md gives them the same bytes, whatever their
+/// representation (borrowed / owned / vectored in any chunking), symmetrically, and every frame equals itself and its clone.
+#[derive(Clone, Debug, Hash, Serialize, Deserialize)]
+pub struct EqCase {
+    pub a: FSpec,
+    pub b: FSpec,
+}
+
+fn rechunk(data: &[u8], cuts: &[u8], owned: u8) -> Vec<(bool, Vec<u8>)> {
+    let mut pos: Vec<usize> = cuts.iter().map(|c| if data.is_empty() { 0 } else { *c as usize * (data.len() + 1) / 256 }).collect();
+    pos.sort_unstable();
+    let mut out = vec![];
+    let mut last = 0;
+    for (i, p) in pos.iter().chain(std::iter::once(&data.len())).enumerate() {
+        out.push(((owned >> (i % 8)) & 1 == 1, data[last..*p].to_vec()));
+        last = *p;
+    }
+    out
+}
+
+/// a frame with the same wire bytes in another representation
+fn same_as(a: &FSpec, cuts: &[u8], owned: u8) -> FSpec {
+    match a {
+        FSpec::PushBorrowed { id, data } | FSpec::PushOwned { id, data } => match owned % 3 {
+            0 => FSpec::PushBorrowed { id: *id, data: data.clone() },
+            1 => FSpec::PushOwned { id: *id, data: data.clone() },
+            _ => FSpec::PushVectored { id: *id, chunks: rechunk(data, cuts, owned) },
+        },
+        FSpec::PushVectored { id, chunks } => {
+            let data: Vec<u8> = chunks.iter().flat_map(|c| c.1.iter().copied()).collect();
+            match owned % 3 {
+                0 => FSpec::PushBorrowed { id: *id, data },
+                1 => FSpec::PushOwned { id: *id, data },
+                _ => FSpec::PushVectored { id: *id, chunks: rechunk(&data, cuts, owned) },
+            }
+        }
+        FSpec::DatagramBorrowed { id, port, host, data } => FSpec::DatagramOwned { id: *id, port: *port, host: host.clone(), data: data.clone() },
+        FSpec::DatagramOwned { id, port, host, data } => FSpec::DatagramBorrowed { id: *id, port: *port, host: host.clone(), data: data.clone() },
+        other => other.clone(),
+    }
+}
+
+/// a frame that differs from `a` in exactly one place
+fn perturbed(a: &FSpec, k: u8, x: u8) -> FSpec {
+    let bump = |v: &Vec<u8>| {
+        let mut v = v.clone();
+        match k % 3 {
+            0 => v.push(x),
+            1 if !v.is_empty() => {
+                let i = x as usize % v.len();
+                v[i] ^= 1 << (k % 8);
+            }
+            _ => {
+                if v.pop().is_none() {
+                    v.push(x)
+                }
+            }
+        }
+        v
+    };
+    let mut b = a.clone();
+    match &mut b {
+        FSpec::Connect { id, rwnd, port, host } => match k % 4 {
+            0 => *id ^= 1 << (x % 32),
+            1 => *rwnd ^= 1 << (x % 32),
+            2 => *port ^= 1 << (x % 16),
+            _ => *host = bump(host),
+        },
+        FSpec::Acknowledge { id, n } => {
+            if k % 2 == 0 {
+                *id ^= 1 << (x % 32)
+            } else {
+                *n ^= 1 << (x % 32)
+            }
+        }
+        FSpec::Reset { id } => {
+            if k % 2 == 0 {
+                *id ^= 1 << (x % 32)
+            } else {
+                return FSpec::Finish { id: *id };
+            }
+        }
+        FSpec::Finish { id } => {
+            if k % 2 == 0 {
+                *id ^= 1 << (x % 32)
+            } else {
+                return FSpec::Reset { id: *id };
+            }
+        }
+        FSpec::PushBorrowed { id, data } | FSpec::PushOwned { id, data } => {
+            if k % 4 == 0 {
+                *id ^= 1 << (x % 32)
+            } else {
+                *data = bump(data)
+            }
+        }
+        FSpec::PushVectored { id, chunks } => {
+            if k % 4 == 0 || chunks.is_empty() {
+                *id ^= 1 << (x % 32)
+            } else {
+                let i = x as usize % chunks.len();
+                chunks[i].1 = bump(&chunks[i].1);
+            }
+        }
+        FSpec::Bind { id, dgram, port, host } => match k % 4 {
+            0 => *id ^= 1 << (x % 32),
+            1 => *dgram = !*dgram,
+            2 => *port ^= 1 << (x % 16),
+            _ => *host = bump(host),
+        },
+        FSpec::DatagramBorrowed { id, port, host, data } | FSpec::DatagramOwned { id, port, host, data } => match k % 4 {
+            0 => *id ^= 1 << (x % 32),
+            1 => *port ^= 1 << (x % 16),
+            2 => {
+                // move one byte across the host/data boundary: same concatenation, different fields
+                if let Some(b0) = data.first().copied() {
+                    if host.len() < 255 {
+                        host.push(b0);
+                        data.remove(0);
+                    }
+                } else {
+                    *host = bump(host);
+                    host.truncate(255);
+                }
+            }
+            _ => *data = bump(data),
+        },
+    }
+    b
+}
+
+pub fn check_eq(c: &EqCase) -> Outcome {
+    let (ra, rb) = (c.a.to_ref(), c.b.to_ref());
+    let (Some(ea), Some(eb)) = (rf::encode(&ra), rf::encode(&rb)) else {
+        return Outcome::pass(false, vec!["outside-encoder-domain"]);
+    };
+    let same = ea == eb;
+    let (fa, fb) = (c.a.build(), c.b.build());
+    let (ab, ba) = (fa == fb, fb == fa);
+    let pair = format!("{}~{}", c.a.class(), c.b.class());
+    if ab != ba {
+        return Outcome::violation(format!("eq-asymmetric:{pair}"), format!("a == b is {ab} but b == a is {ba} for a={fa:?} b={fb:?}"));
+    }
+    if ab != same {
+        return Outcome::violation(
+            format!("eq-vs-wire:{pair}"),
+            format!("the two frames {} the same wire bytes ({} / {}) but `==` says {ab}: a={fa:?} b={fb:?}", if same { "have" } else { "do not have" }, hex(&ea), hex(&eb)),
+        );
+    }
+    #[allow(clippy::eq_op)]
+    if !(fa == fa) || fa.clone() != fa || !(fb == fb) {
+        return Outcome::violation(format!("eq-not-reflexive:{}", c.a.class()), format!("a frame is not equal to itself or to its clone: {fa:?}"));
+    }
+    // and against the decoder's output (always a borrowed or owned single payload)
+    if let Ok(d) = Frame::try_from(eb.as_slice()) {
+        if (fa == d) != same || (d == fa) != same {
+            return Outcome::violation(format!("eq-vs-decoded:{pair}"), format!("a == decode(encode(b)) is {} but the wire bytes are {}", fa == d, if same { "equal" } else { "different" }));
+        }
+    }
+    let vect = matches!(c.a, FSpec::PushVectored { .. }) || matches!(c.b, FSpec::PushVectored { .. });
+    Outcome::pass(vect || !same, vec![if same { "same-bytes" } else { "different-bytes" }, if vect { "vectored-involved" } else { "no-vectored" }])
+}
+
 pub fn run(ctx: &Ctx, rep: &mut Report) {
     rep.rule = "G1: frame specs over all opcodes/constructors with boundary-biased u32/u16 and host/payload lengths; non-trivial = variable field at a boundary \
                 (host len 0/1/255, payload len 0..=3, vectored with an empty chunk). G2: byte strings (bounded-exhaustive over a boundary alphabet, mutations of valid \
@@ -445,6 +609,24 @@ pub fn run(ctx: &Ctx, rep: &mut Report) {
     let t = ctx.tier;
     let big = t.pick(4096, 70_000);
     ctx.prop(rep, "encode", t.pick(300_000, 3_000_000), 500, || (fspec(big), payload(64)).prop_map(|(spec, extra)| EncCase { spec, extra }), check_encode);
+    ctx.prop(
+        rep,
+        "equality",
+        t.pick(200_000, 2_000_000),
+        500,
+        || {
+            (fspec(600), fspec(600), 0u8..10, prop::collection::vec(any::<u8>(), 0..4), any::<u8>(), any::<u8>(), any::<u8>()).prop_map(|(a, other, mode, cuts, owned, k, x)| {
+                let b = match mode {
+                    0..=3 => same_as(&a, &cuts, owned),
+                    4..=7 => perturbed(&same_as(&a, &cuts, owned), k, x),
+                    8 => perturbed(&a, k, x),
+                    _ => other,
+                };
+                EqCase { a, b }
+            })
+        },
+        check_eq,
+    );
     let l = t.pick(5, 7);
     let total = 1 + 96 * (4 + tails_upto(l));
     ctx.enumerate(rep, "decode-exhaustive", total, 500, |i| nth_string(i, l), check_decode);
